@@ -20,10 +20,10 @@ CLAIMED = {
    note="Each public method of Writer/Reader is one atomic step (runs under the object's mutex; C20 checks the lock discipline); Go channels/scheduler modelled; payloads opaque. Known findings: relink-with-pending (answers have no request ids), close-discards-buffered (writer pump drops buffered responses when closed). Trusted: Lean kernel, harness, VerifReceive hook.",
    technique="Lean 4 proof (refinement to an abstract specification by simulation, invariants by induction over histories) + model/implementation differential correspondence"),
  "C04": dict(
-   category="proof", design_ref="DESIGN.md §5 C04",
-   text="11 Lean theorems over all process forests and ALL schedules of the small-step machine of process.Process (one step per critical section: addHook, fork in two steps, exit flip, one hook per step, join): C04.hook_exactly_once (token conservation: every registration runs at most once, exactly once when its process is terminated and nothing of it is pending – registered before, during or after termination), C04.hook_gets_first_error, C04.status_done_err_agree, C04.cascade / cascade_child, C04.first_error_kept, C04.values_cleared_at_exit. reverse_order and join_after_children are proved only in partial form (full statements kept as defs). Tied to the code by replaying the same step schedules on real processes with goroutines parked in harness hooks (3k cases quick, 48k thorough) plus a free-running oracle.",
-   note="mu.Lock…Unlock sections are atomic steps, WaitGroup is a counter; user hooks do not call back into the process. Partial: cross-thread ordering of the hook log and the Join accounting invariant are not proved (checked by the oracle on the implementation). Trusted: Lean kernel, harness, goroutine wait states from runtime.Stack.",
-   technique="Lean 4 proof (counting invariants over a small-step thread machine, all schedules) + model/implementation differential correspondence"),
+   category="proof", design_ref="DESIGN.md §5 C04, §9.1",
+   text="23 Lean theorems over all process forests and ALL schedules of the small-step machine of process.Process (one step per critical section: addHook, fork in two steps, exit flip, one hook per step, join): C04.hook_exactly_once (token conservation: every registration runs at most once, exactly once when its process is terminated and nothing of it is pending – registered before, during or after termination), C04.hook_gets_first_error, C04.reverse_order / reverse_order_log (early hooks run in reverse registration order in the log, across threads), C04.status_done_err_agree, C04.cascade / cascade_child, C04.join_after_children / join_return_after_children / wait_done_never_panics / wait_counter_accounting, C04.first_error_kept, C04.values_cleared_at_exit, C04.atomic_sections (every method of Process locks p.mu at exactly one site – regenerated from process.go). Tied to the code by replaying the same step schedules on real processes with goroutines parked in harness hooks (3.8k cases quick, 48k thorough) plus a free-running oracle.",
+   note="mu.Lock…Unlock sections are atomic steps (granularity checked against the regenerated lock-fact table), WaitGroup is a counter (its misuse panics are outside the model); user hooks do not call back into the process. Trusted: Lean kernel, harness, extractor, goroutine wait states from runtime.Stack.",
+   technique="Lean 4 proof (counting and ordering invariants over a small-step thread machine, all schedules) + model/implementation differential correspondence"),
  "C18": dict(
    category="proof", design_ref="DESIGN.md §5 C18",
    text="25 Lean theorems about the executable model of template.parse/execute, Meta.Bind/IsBound and Unstructured.Build (text/template itself is a parameter constrained only by hypotheses): C18.substitutes / substitutes_build / bind_then_build (every string leaf and key is replaced by its rendering and nothing else changes, for every nesting and every Go map iteration order), C18.plain_identity (action-free documents come back equal up to nil-vs-empty Fields), C18.bind_selects_* (exactly the value named by id / name / anonymous), C18.missing_rejected, C18.no_panic; the pinned-tree defects are refuted by decide witnesses. Tied to the code by differential execution (10k cases quick, 200k thorough, exhaustive selection sweep, corpus) with real text/template output supplied as a table.",
